@@ -142,6 +142,39 @@ pub fn run(cx: &mut Cx) {
                 (f.into(), f.into(), String::new())
             }
         };
+        // one render/build fault in four is spread over several lines (a space outside string literals and outside the
+        // offending token becomes a line break), so that spans merged from sub-expressions cross lines
+        let (fault, multiline) = if (class == "render" || class == "build") && rng.chance(1, 4) {
+            let tr = fault.find(tok.as_str()).map(|a| a..a + tok.len()).unwrap_or(0..0);
+            let mut quotes = 0;
+            let cands: Vec<usize> = fault
+                .char_indices()
+                .filter_map(|(i, c)| {
+                    if c == '"' {
+                        quotes += 1;
+                    }
+                    (c == ' ' && quotes % 2 == 0 && !tr.contains(&i) && i > 2).then_some(i)
+                })
+                .collect();
+            if cands.is_empty() {
+                (fault, false)
+            } else {
+                let mut f = fault.clone();
+                // from the right, so that earlier offsets stay valid
+                let mut picks: Vec<usize> = (0..1 + rng.below(2)).map(|_| cands[rng.below(cands.len())]).collect();
+                picks.sort();
+                picks.dedup();
+                for i in picks.into_iter().rev() {
+                    f.replace_range(i..i + 1, if rng.bool() { "\n  " } else { "\r\n" });
+                }
+                (f, true)
+            }
+        } else {
+            (fault, false)
+        };
+        if multiline {
+            cx.count("faults_spread_over_lines", 1);
+        }
         // placement: 0 top level of the entry, 1 block of the parent, 2 block of the child, 3 included, 4 component body,
         // 5 included of included, 6 component called from an included template
         let placement = if class == "eoi" { *rng.pick(&[0usize, 3, 5]) } else { rng.below(7) };
